@@ -402,7 +402,7 @@ fn condition_cases(ctx: &Ctx) -> Vec<(Case, bool)> {
 }
 
 pub fn run(ctx: &Ctx) {
-    ctx.set_rule("all nestings of {bare block, if, else, else-if, while, for over list / string / object, call of a named / anonymous / method function} to depth 3 (quick: depth 4 sampled 1:24; thorough: depth 4 complete) with one of break / continue / return v / nothing at the innermost position, unguarded and guarded (taken from the second iteration on), traces before / inside / after every construct and after the jump; every truth assignment of 1..3-branch if chains with tracing conditions; loop bodies that overwrite, rebind, grow or range-assign the iterated container, while conditions with side effects, continue on the last iteration, jumps outside any target and inside a function called from a loop; oracle: reference interpreter (exact trace, return value, error iff reference error). Non-trivial = the jump crosses at least one construct before its target; distinct = distinct source texts");
+    ctx.set_rule("all nestings of {bare block, if, else, else-if, while, for over list / string / object, call of a named / anonymous / method function} to depth 3 (quick: depth 4 sampled 1:24; thorough: depth 4 complete) with one of break / continue / return v / nothing at the innermost position, unguarded and guarded (taken from the second iteration on), traces before / inside / after every construct and after the jump; every truth assignment of 1..3-branch if chains with tracing conditions; loop bodies that overwrite, rebind, grow or range-assign the iterated container, while conditions with side effects, continue on the last iteration, jumps outside any target and inside a function called from a loop; oracle: reference interpreter (exact trace, return value, error iff reference error); `while` and `if`-inside-a-loop with 34 condition shapes (interpolations, calls, container literals, closures, type functions), each true exactly while n < 3; loops of 30+ turns; nestings of depth 6 and 8. Non-trivial = the jump crosses at least one construct before its target; distinct = distinct source texts");
     ctx.replay_corpus(None);
     let mut cases = vec![];
     cases.extend(nestings(ctx, 1, 1));
@@ -415,6 +415,9 @@ pub fn run(ctx: &Ctx) {
     } else {
         cases.extend(nestings(ctx, 4, 1));
         ctx.mark_exhaustive("all nestings of depth 3 and 4");
+        // Depth 5, one in six, through the in-process back-end.
+        let deep = nestings(ctx, 5, 6);
+        ctx.judge_all(deep, Via::Fast, None);
     }
     // A few nestings of depth 6 and 8 (every construct kind once).
     for (j, guarded) in [(Jump::Break, true), (Jump::Continue, false), (Jump::Return, true), (Jump::None, false)] {
